@@ -186,7 +186,7 @@ def validate_stateful_trace(run, scratch, name, module, events, n_prefix, corrup
         # the log line the specification could not consume, with its context (the iterator it belongs to)
         i = stuck - 1
         j = max(0, min(i, len(events) - 1))
-        while j > 0 and events[j].get("t") not in ("begin", "file"):
+        while j > 0 and events[j].get("t") not in ("begin", "file", "mapper", "parse"):
             j -= 1
         sig = {"step": name}
         if signature:
